@@ -13,6 +13,7 @@ from hypothesis import strategies as st
 from vlib.core import Violation, Out, HarnessError
 from vlib.runner import HypStage
 from vlib import env, certs, attest
+from vlib.strategies import textlike_head32
 from vlib.certs import pub_uncompressed, pub_compressed
 from vlib.refs import ALL_PATHS
 
@@ -43,7 +44,7 @@ VARIANTS = ["none", "none", "reorder-file", "key-replaced", "key-added", "key-re
             "root-not-self-signed", "hash-flipped", "foreign-platform-id", "bundled-root",
             "one-target-signature-broken", "target-without-app-hash",
             "attestation-message-reshaped"]
-REQUIRED_LABELS = {t: ["plat:ledger", "plat:sgx", "accepted", "refused", "legacy", "current"] +
+REQUIRED_LABELS = {t: ["plat:ledger", "plat:sgx", "accepted", "refused", "legacy", "current", "via:program"] +
                    ["variant:" + v for v in sorted(set(VARIANTS))]
                    for t in ("quick", "thorough")}
 h32 = st.binary(min_size=32, max_size=32)
@@ -59,7 +60,7 @@ def cases(draw, tier):
     c = {"plat": plat, "keys": keys,
          "compressed_in_file": [draw(st.booleans()) for _ in keys],
          "file_order": draw(st.permutations(list(range(len(keys))))),
-         "ud": draw(h32), "best": draw(h32), "tx": draw(st.binary(min_size=8, max_size=8)),
+         "ud": draw(st.one_of(h32, h32, textlike_head32())), "best": draw(h32), "tx": draw(st.binary(min_size=8, max_size=8)),
          "ts": draw(st.one_of(st.sampled_from([0, 1, 2 ** 64 - 1]), st.integers(0, 2 ** 64 - 1))),
          "ui_hash": draw(h32), "signer_hash": draw(h32),
          "iteration": draw(st.one_of(st.sampled_from([0, 1, 65535]), st.integers(0, 65535))),
@@ -69,14 +70,16 @@ def cases(draw, tier):
          "legacy_version": draw(st.sampled_from(["2.0", "5.3", "4.1"])),
          "platform3": b"led" if plat == "ledger" else b"sgx",
          "foreign_platform3": draw(st.sampled_from([b"led", b"sgx", b"x86", b"abc"])),
-         "ui_ud": draw(h32),
+         "ui_ud": draw(st.one_of(h32, h32, textlike_head32())),
          "roots": [draw(st.integers(0, 2 ** 64)) for _ in range(4)],
          "auth": draw(st.binary(min_size=1, max_size=60)),
          "variant": draw(st.sampled_from(VARIANTS)),
          "vi": draw(st.integers(0, 1000)), "vkey": draw(st.integers(0, 2 ** 64)),
          "vbytes": draw(st.binary(min_size=1, max_size=8)),
          "vpath": draw(st.sampled_from(EXTRA_PATHS + ["m/99'/0'/0'/0/0", "zzz"])),
-         "vhdr": draw(st.integers(0, 5)), "vtarget": draw(st.integers(0, 1))}
+         "vhdr": draw(st.integers(0, 5)), "vtarget": draw(st.integers(0, 1)),
+         # through adm_ledger.py / adm_sgx.py with a command line instead of the function
+         "program": draw(st.integers(0, 3)) == 0}
     return c
 
 
@@ -292,7 +295,12 @@ def run_case(c):
     err = None
     try:
         with contextlib.redirect_stdout(out):
-            (vla if plat == "ledger" else vsa).do_verify_attestation(options)
+            fn = (vla if plat == "ledger" else vsa).do_verify_attestation
+            if c.get("program"):
+                from vlib.programs import as_program
+                fn = as_program(fn, options, plat == "ledger")
+                labels.append("via:program")
+            fn(options)
     except Exception as e:    # noqa - both CLIs turn every exception into a non-zero exit
         err = e
     text = out.getvalue()
